@@ -182,8 +182,14 @@ func wScenarios(id, tier string, body func(x *explore.Ctx, cfg WConfig, prog int
 						cfg := WConfig{Server: server, B: b, Compress: comp, SizeIdx: si}
 						prog := prog
 						bd := bound
-						if tier == "thorough" && effB(b) >= 4096 {
+						if tier == "thorough" {
+							// the whole product with every value set at deviation bound 2; bound 3 on a
+							// sub-lattice (two buffer sizes, every fourth boundary size) so that the tier
+							// completes
 							bd = 2
+							if (b == 125 || b == 300) && si%4 == 1 {
+								bd = 3
+							}
 						}
 						scs = append(scs, &explore.Scenario{
 							Name:  fmt.Sprintf("%s/writer=%s/deflate=%v/B=%d/prog=%d/size#%d", id, roleName(server), comp, b, prog, si),
@@ -208,7 +214,7 @@ func init() {
 			"transport is the scripted in-memory netsim.Conn",
 		},
 		Budget:    map[string]time.Duration{"quick": 100 * time.Second, "thorough": 25 * time.Minute},
-		Bound:     map[string]string{"quick": "deviations <= 2, <= 2 messages, levels {1,0,-2,9}", "thorough": "deviations <= 3 (2 for B >= 4096), <= 3 messages, levels -2..9, sizes 65535..65537 added, B in {65536,70000} added"},
+		Bound:     map[string]string{"quick": "deviations <= 2, <= 2 messages, levels {1,0,-2,9}", "thorough": "deviations <= 2 over the whole product with full value sets (<= 3 messages, levels -2..9, sizes 65535..65537, B up to 70000) and <= 3 on a sub-lattice (B in {125,300}, every fourth boundary size)"},
 		Scenarios: func(tier string) []*explore.Scenario { return wScenarios("c01", tier, c01Body) },
 	})
 }
